@@ -821,6 +821,12 @@ func exec(x *fw.Ctx, c Case) {
 	for _, d := range c.Dirty {
 		x.Cover("dirty-stream:" + d)
 	}
+	if len(c.Dirty) == 0 && (c.Kind == "prog" || c.Kind == "tmpl") {
+		// the clean stream: none of the listed constructs is generated
+		for _, k := range dirtyKeys {
+			x.Cover("avoided:" + k)
+		}
+	}
 	exp := runRef(forms, typed)
 	obs := map[string]any{}
 	x.Observe(obs)
@@ -1069,7 +1075,7 @@ func counts(tier string) (nProbe, nTmpl, nQuote, nProg int) {
 	if tier == "thorough" {
 		return nProbe, len(tmplTable) * 4, 20000, 400000
 	}
-	return nProbe, len(tmplTable), 3000, 24000
+	return nProbe, len(tmplTable), 4000, 60000
 }
 
 func nCases(tier string) int {
@@ -1140,11 +1146,17 @@ func init() {
 	fw.Register(fw.Spec[Case]{
 		ID: "C01",
 		Rule: "typed program generator over the core forms (builtin/user calls, progn, prog1, if/when/unless/cond/case, and/or, let/let*, " +
-			"setq, lambda, closures, defun+recursion, dolist/dotimes/do/do*, mapcar/apply/funcall, values/multiple-value-bind/-list, quote), " +
-			"depth <= 6, ~20-70 nodes, trace calls (vtr k form) around evaluated positions; blocks: deterministic probes of listed findings, " +
-			"two-level templates (every form kind as child of every position of every form kind), quote programs over every datum kind, " +
-			"seeded random programs (10% dirty stream enabling one listed construct). distinct = distinct program text + mode; " +
-			"non-trivial = the reference run is error-free, has >= 3 trace events and >= 2 form kinds",
+			"setq, lambda, lambda-call, closures (counter, maker, shared binding, made in a loop, defun in a binding), defun + recursion, " +
+			"dolist/dotimes/do/do*, mapcar/apply/funcall, values/multiple-value-bind/-list, quote), depth <= 6, ~20-70 generated nodes, " +
+			"variable names reused across nested bindings, trace calls (vtr k form)/(vtr k) at evaluated positions; the reference evaluator's " +
+			"values and trace must equal the interpreter's (interpreted and Code.Compile'd modes). Blocks: deterministic probes of the listed " +
+			"findings; two-level templates (every form kind forced as direct child of every position of every form kind); quote programs over " +
+			"every datum kind in 10 evaluation contexts; seeded random programs. Clean stream avoids the listed constructs (counters avoided:*: " +
+			"multiple values reaching single-value consumers other than function arguments/prog1/case keys, progn passing multiple values, " +
+			"(values) with no values, cond test-only clauses, do variables without step, atom end tests, mapcar over possibly empty lists, " +
+			"free variables captured under a name that is rebound elsewhere (captured variables get unique names), bare free variable as " +
+			"lambda-call body form, 'x before anything but a symbol or list); 1 in 8 random cases is a dirty case that builds one listed construct. " +
+			"distinct = distinct program text + mode; non-trivial = reference run error-free with >= 3 trace events and >= 2 form kinds",
 		N:        nCases,
 		Gen:      genCase,
 		Exec:     exec,
